@@ -164,6 +164,16 @@ def shrink_history(case):
         c["prog"]["order"] = [x for x in c["prog"]["order"] if x != fn]
         for g in c["prog"]["funcs"].values():
             g["body"] = [it for it in g["body"] if it.get("f") != fn]
+            for it in g["body"]:
+                for a in it.get("args", []):
+                    if a.get("f") == fn:
+                        if a["k"] == "rtcall":
+                            a.clear()
+                            a.update({"k": "lit", "v": 1})
+                        else:
+                            n_ = a["n"]
+                            a.clear()
+                            a.update({"k": "kw", "n": n_, "v": 1})
         gen.renumber_rt(c["prog"])
         c["ops"] = [op for op in c["ops"] if not (op["op"] == "edit" and op["edit"].get("f") == fn)]
         yield c
@@ -259,6 +269,10 @@ def feature_tags(case):
                 t.add("pathform:var")
             for a in it.get("args", []):
                 t.add("arg:" + a["k"])
+            if it.get("wrap"):
+                t.add("wrap:" + it["wrap"])
+    if prog.get("rec_builtin"):
+        t.add("rec:builtin")
     if len(prog["mods"]) > 1:
         t.add("multi-module")
     if len(prog["pkg"]) > 1:
